@@ -24,14 +24,23 @@ THEOREMS = ["copy_reassembles", "restore_any_reader", "restore_snapshot", "snaps
             "no_mixed_view", "every_read_sees_pinned", "swap_excludes_readers", "no_deadlock_flat",
             "restore_under_write_lock", "tx_entry_points_guarded", "code_no_mixed_view",
             "old_protocol_deadlock_reachable", "no_reentrant_read_lock", "all_entry_points_flat", "code_no_deadlock",
-            "flat_population_completes", "code_population_completes"]
+            "flat_population_completes", "code_population_completes",
+            # the restore in stages with calls from inside the reader (C17/Staged.lean)
+            "persist_stage_transparent", "staged_restore_closed_form", "staged_restore_position_independent",
+            "staged_restore_installs", "staged_restore_db_eq_plain", "staged_restore_nil", "staged_extends_plain",
+            "calls_during_stream_see_old", "staged_restore_snapshot", "staged_snapshot_id_kept",
+            "staged_restore_fires_listeners", "staged_timeline_once", "staged_restore_then_timeline_fresh",
+            "staged_model_meets_spec", "staged_oracle_accepts_model", "dbimpl_state_modelled"]
 TABLE_OBLIGATIONS = ["restore_under_write_lock (Generated/DbLocks.lean, regenerated from boltz/db.go)",
                      "tx_entry_points_guarded (same table)", "no_reentrant_read_lock (same table)",
-                     "all_entry_points_flat (same table)"]
+                     "all_entry_points_flat (same table)",
+                     "dbimpl_state_modelled (field list of `type DbImpl struct` + package-level vars of boltz/db.go, same file)"]
 
 RULE = ("sequential histories over {Update commit/rollback, Snapshot, View+SnapshotInTx, Update+SnapshotInTx, failing "
         "Snapshot, StreamToWriter, RestoreSnapshot, RestoreFromReader, GetSnapshotId, GetTimelineId x3 modes x idF "
-        "ok/failing, AddRestoreListener, dump} on 6 keys / 6 typed values (two of them 300 KB / 700 KB blobs so that snapshot files straddle the 32 KB and 1 MB copy buffers) / 1-3 snapshot slots: 45 fixed histories of "
+        "ok/failing, AddRestoreListener, dump} on 6 keys / 6 typed values (two of them 300 KB / 700 KB blobs so that snapshot files straddle the 32 KB and 1 MB copy buffers) / 1-3 snapshot slots: 51 fixed histories "
+        "'live db carries the id of an earlier restore; another snapshot streams in while the reader calls X at position P' "
+        "(16 calls x 3 positions x 4 reader behaviours, + 3 in-transaction snapshot routes) + 45 fixed histories of "
         "the property's shape (route x restore call x mode), every chunk size x EOF style against a small snapshot (and against a > 1 MB one: 4 in quick, all in thorough) + seeded random ones (75% forced to contain snapshot ... "
         "restore; gsid; 2 timeline requests; dump); concurrent populations of View/Update/Batch/StreamToWriter/"
         "GetSnapshotId/GetTimelineId goroutines against RestoreSnapshot goroutines (each transaction must read all "
@@ -59,13 +68,13 @@ def nontrivial(case, impl):
     for i, op in enumerate(f[1:]):
         o = obs[i] if i < len(obs) else ""
         p = op.split(":")
-        if p[0] in ("snap", "snapt", "snapu", "stream") and not o.startswith("err"):
+        if p[0] in ("snap", "snapt", "snapu", "stream", "snaptc", "snapuc", "streamc") and not o.startswith("err"):
             snapped[p[1]] = i
-            wrote_after[p[1]] = p[0] == "snapu" and len(p) > 2 and p[2] != ""
+            wrote_after[p[1]] = p[0] in ("snapu", "snapuc") and len(p) > 2 and p[2] != ""
         elif p[0] == "tx" and o == "ok" and p[1] != "":
             for k in wrote_after:
                 wrote_after[k] = True
-        elif p[0] in ("rest", "restr") and o.startswith("restored") and wrote_after.get(p[1]):
+        elif p[0] in ("rest", "restr", "restc") and o.startswith("restored") and wrote_after.get(p[1]):
             return case
     return None
 
@@ -158,6 +167,13 @@ def shrink(ctx, case, kind):
     for _ in range(60):
         cands = [cur[:i] + cur[i + 1:] for i in range(len(cur))]
         cands = [c for c in cands if c]
+        for i, op in enumerate(cur):          # … or one call less from inside a reader
+            p = op.split(":")
+            if p[0] == "restc" and len(p) == 6 and p[5] != "-":
+                cbs = p[5].split(";")
+                for j in range(len(cbs)):
+                    rest = ";".join(cbs[:j] + cbs[j + 1:]) or "-"
+                    cands.append(cur[:i] + [":".join(p[:5] + [rest])] + cur[i + 1:])
         if not cands:
             break
         lines = ["seq " + " ".join(c) for c in cands]
@@ -189,6 +205,10 @@ def histogram(lines):
                     name = f"gtl:{p[1]}:{'ok' if p[2] == '1' else 'idFfails'}"
                 elif name == "tx":
                     name = "tx:commit" if p[2] == "c" else "tx:rollback"
+                elif name == "restc" and len(p) == 6 and p[5] != "-":
+                    for cb in p[5].split(";"):
+                        pos, _, call = cb.partition("=")
+                        h["call-from-reader:" + call.split("~")[0] + "@" + (pos if pos in ("f", "e") else "mid")] += 1
                 h[name] += 1
         elif f[0] == "conc":
             h["conc:" + f[1]] += 1
